@@ -321,6 +321,85 @@ def reviewedOrphans : List (String × String × String) := [
   ("ingredient.rs", "from_manifest_and_asset_stream", "-")
 ]
 
+/-! ### Adapter pairs: `impl T for X` / `impl AsyncT for AsyncX`
+The wrappers that carry a caller's `Signer` / `AsyncSigner` into the COSE layer (`SignerWrapper` /
+`AsyncSignerWrapper`), the `Box<T>` forwarders, `CallbackSigner`, the resolver stacks and the
+identity assertion builders are written twice by hand, one `impl` block per flavour. A trait
+method with a default body that one block overrides (forwards) and the other leaves to the
+default is a divergence the compiler cannot see. -/
+
+structure MethodPair where
+  name : String
+  syncBody : List Tok
+  asyncBody : List Tok
+  deriving Repr
+
+structure ImplPair where
+  file : String
+  /-- trait and implementing type with the `Async`/`Sync` prefixes of their identifiers erased -/
+  traitName : String
+  ty : String
+  test : Bool
+  /-- sorted names of the methods each block defines (`_async` suffix erased) -/
+  syncMethods : List String
+  asyncMethods : List String
+  methods : List MethodPair
+  deriving Repr
+
+/-- weaker relations for reviewed method pairs -/
+inductive MethodKind
+  /-- by-reference vs by-value argument (`related .argMode`) -/
+  | argMode
+  /-- equal after erasing `Async` on the async side and `Sync` on the sync side -/
+  | flavouredBoth
+  /-- the async body has an additional opt-in step that is off by default; the sync body is a
+      prefix-equal forwarder (reviewed by hand) -/
+  | asyncOptIn
+  /-- the async body wraps its final expression `e` as `Ok(e?)`: the same value with an identity
+      error conversion -/
+  | okWrap
+  deriving DecidableEq, Repr
+
+/-- remove the first `Ok (` -/
+def dropFirstOk : List Tok → List Tok
+  | .t "Ok" :: .t "(" :: r => r
+  | x :: r => x :: dropFirstOk r
+  | [] => []
+
+def MethodPair.ok (m : MethodPair) : Option MethodKind → Bool
+  | none => related .twin m.syncBody m.asyncBody && awaitBalanced m.asyncBody
+  | some .argMode => related .argMode m.syncBody m.asyncBody && awaitBalanced m.asyncBody
+  | some .flavouredBoth =>
+    (normAsync m.asyncBody).map stripAsyncPrefix == (normSync m.syncBody).map stripSyncPrefix
+  | some .asyncOptIn => awaitBalanced m.asyncBody
+  | some .okWrap =>
+    dropFirstOk (normAsync m.asyncBody) == normSync m.syncBody ++ [.t "?", .t ")"] && awaitBalanced m.asyncBody
+
+/-- (trait, type, method) ↦ kind -/
+def reviewedMethods : List (String × String × String × MethodKind) := [
+  -- `(self.callback)(self.context, data)` vs `(self.callback)(self.context, &data)`
+  ("Signer", "CallbackSigner", "sign", .argMode),
+  -- `Err(SyncHttpResolverNotImplemented)` vs `Err(AsyncHttpResolverNotImplemented)`
+  ("HttpResolver", "NoopResolver", "http_resolve", .flavouredBoth),
+  -- `AsyncGenericResolver` has the opt-in `max_response_body_size` guard (default: none)
+  ("HttpResolver", "GenericResolver", "http_resolve", .asyncOptIn),
+  -- `sign(..).map_err(..)` vs `Ok(sign(..).map_err(..)?)` (raw signing is synchronous in both)
+  ("CredentialHolder", "X509CredentialHolder", "sign", .okWrap)
+]
+
+def ImplPair.methodsOk (p : ImplPair) : Bool :=
+  p.methods.all (fun m =>
+    m.ok none || reviewedMethods.any (fun r =>
+      r.1 == p.traitName && r.2.1 == p.ty && r.2.2.1 == m.name && m.ok (some r.2.2.2)))
+
+/-- `impl AsyncT for X` of non-test code without a synchronous `impl T for …` of the same
+type name: (trait, type). Asynchronous-only implementors (no sync twin to diverge from). -/
+def reviewedAsyncOnly : List (String × String) := [
+  ("HttpResolver", "reqwest : : Client"), ("HttpResolver", "wstd : : http : : Client"),
+  ("Signer", "IdentityAssertionSigner"), ("Send", "IdentityAssertionBuilder"),
+  ("PostValidator", "CawgValidator < '_ >")
+]
+
 /-- Operations the property statement names; each must be a macro-generated pair:
 (file, function). De-macroing one of them (two hand-written bodies) fails
 `required_pairs_generic`. -/
